@@ -210,7 +210,10 @@ def run_C19():
                 a = parse(text); r1 = apply(a, ('set', p, v)); r2 = apply(a, ('rm', p))
                 if r1[0] == 'ok' and (r2[0] != 'ok' or r2[1] != text): bad('set of a fresh single-segment path then rm does not restore the text', doc=text, ops=[['set', p, v], ['rm', p]], got=r2[1] if r2[0] == 'ok' else r2)
             elif law == 'scoped_set_rm' and WRAPPERS[meta['shape']][2]:
-                p = '@' + 'fresh_k'; v = R.choice(VALUES[:5])
+                layer_names = {k for L in meta['layers'] for k in L}
+                body_keys = [k[0] for k in leafs if len(k) == 1 and IDENT.match(k[0]) and k[0] not in layer_names]
+                p = '@' + (R.choice(body_keys) if body_keys and R.random() < 0.6 else 'fresh_k'); v = R.choice(VALUES[:5])    # a name fresh in the scope, possibly a key of the body
+                if not meta['layers'] and p != '@fresh_k': known['F-37'] = known.get('F-37', 0) + 1; continue      # listed: without a let, @NAME of a body key edits the body
                 a = parse(text); r1 = apply(a, ('set', p, v)); r2 = apply(a, ('rm', p))
                 if r1[0] == 'ok' and (r2[0] != 'ok' or r2[1] != text): bad('set of a fresh scope-prefixed path then rm does not restore the text', doc=text, ops=[['set', p, v], ['rm', p]], got=r2[1] if r2[0] == 'ok' else r2)
             elif law == 'rm_set' and leafs:
@@ -221,12 +224,19 @@ def run_C19():
                     t2 = read_tree(r2[1]) if r2[0] == 'ok' else None
                     if t2 is None or not tree_matches(t2[0], tree0, p): bad('rm then set of the removed value does not restore the attribute tree', doc=text, ops=[['rm', pstr(p)], ['set', pstr(p), v]], got=r2[1] if r2[0] == 'ok' else r2)
             elif law == 'commute' and len(leafs) >= 2:
-                p, q_ = R.sample(leafs, 2)
-                if p[:len(q_)] == q_ or q_[:len(p)] == p: continue
+                cands = [pstr(k) for k in leafs] + (['@' + k for L in meta['layers'] for k in L] if WRAPPERS[meta['shape']][2] else [])
+                p, q_ = R.sample(sorted(set(cands)), 2)
+                if p.startswith(q_ + '.') or q_.startswith(p + '.'): continue
                 v, w = R.choice(VALUES[:5]), R.choice(VALUES[:5])
-                a = parse(text); apply(a, ('set', pstr(p), v)); ra = apply(a, ('set', pstr(q_), w))
-                b = parse(text); apply(b, ('set', pstr(q_), w)); rb = apply(b, ('set', pstr(p), v))
-                if ra[0] == 'ok' and rb[0] == 'ok' and ra[1] != rb[1]: bad('two sets on different existing paths do not commute', doc=text, ops=[['set', pstr(p), v], ['set', pstr(q_), w]], pq=ra[1], qp=rb[1])
+                a = parse(text); apply(a, ('set', p, v)); ra = apply(a, ('set', q_, w))
+                b = parse(text); apply(b, ('set', q_, w)); rb = apply(b, ('set', p, v))
+                if ra[0] == 'ok' and rb[0] == 'ok' and ra[1] != rb[1]: bad('two sets on different existing paths do not commute', doc=text, ops=[['set', p, v], ['set', q_, w]], pq=ra[1], qp=rb[1])
+                if ra[0] == 'ok' and rb[0] == 'ok' and p.startswith('@') != q_.startswith('@'):
+                    # a scoped and a plain set of the same name address different bindings: both must be visible
+                    lay = read_layers(ra[1]); tr = read_tree(ra[1])
+                    sc, pl = (p, q_) if p.startswith('@') else (q_, p); sv, pv = (v, w) if p.startswith('@') else (w, v)
+                    if lay is None or tr is None or not any(L.get(sc.lstrip('@')) == norm(sv) for L in lay):
+                        bad('a scoped set did not write the let layer', doc=text, ops=[['set', p, v], ['set', q_, w]], out=ra[1])
         except Exception as e:
             bad('law check crashed: %s %s' % (type(e).__name__, e), doc=text)
         if len(samples) < 2: samples.append({'doc': text, 'law': law})
